@@ -94,3 +94,6 @@ func VerifC14Handler(sk *ecdsa.PrivateKey, getVal GetLookBackValidatorFn, seed c
 func VerifC14VotePayload(blockHash common.Hash, round *big.Int, roundIndex uint32) []byte {
 	return append(blockHash.Bytes(), append(round.Bytes(), uint32ToBytes(roundIndex)...)...)
 }
+
+// VerifC14Mux is the event mux a handler posts its TransferMessageEvent (relay) to.
+func VerifC14Mux(mh *MessageHandler) *event.TypeMux { return mh.eventMux }
